@@ -16,6 +16,18 @@
 
 using namespace vh;
 using namespace QXmpp::Private;
+
+// The scalar ops are stateless.  For the evidence the lines are cut into batches of 16 consecutive cases of one
+// generator ("reset scalar <generator>"); a batch counts as non-trivial when it shows at least two different outcomes.
+static std::string g_section = "start";
+static int g_inBatch = 0;
+static void section(const std::string &name) { g_section = name; g_inBatch = 0; }
+static void corrB(const std::string &op, const std::string &obs) {
+    if (g_inBatch == 0) vh::corr("reset scalar " + g_section, "ok");
+    g_inBatch = (g_inBatch + 1) % 16;
+    vh::corr(op, obs);
+}
+#define corr corrB
 typedef __int128 i128;
 
 static std::string hexB(const QByteArray &b) {
@@ -83,6 +95,7 @@ template<typename T> static void intRoundtrip(T v) {
 }
 
 template<typename T> static void intBoundsAndRandom(Rng &rng, int nRandom) {
+    section(std::string("int-roundtrip-") + TI<T>::n);
     using L = std::numeric_limits<T>;
     std::set<T> vs = { L::min(), T(L::min() + 1), T(L::min() + 2), L::max(), T(L::max() - 1), T(L::max() - 2), T(0), T(1), T(2), T(9), T(10), T(99), T(100), T(127) };
     if constexpr (std::is_signed_v<T>) { vs.insert(T(-1)); vs.insert(T(-2)); vs.insert(T(-10)); vs.insert(T(-128)); }
@@ -123,7 +136,9 @@ static void intLexical(Rng &rng, bool thorough) {
     bases.push_back(QStringLiteral("-") + QString(40, QLatin1Char('9')));
     bases.push_back(QString(300, QLatin1Char('0')) + QStringLiteral("17"));
     bases.push_back(QStringLiteral("1") + QString(300, QLatin1Char('0')));
+    section("int-plain-around-bounds");
     for (const QString &b : bases) { intParseAll(b); stat("int_lexical_plain"); }
+    section("int-decorated");
     // decorations of a plain number
     for (const QString &b : bases) {
         if (!thorough && rng.below(3)) continue;
@@ -153,11 +168,13 @@ static void intLexical(Rng &rng, bool thorough) {
         if (mag.size() > 1) forms.push_back((neg ? QStringLiteral("-") : QString()) + mag.left(1) + QStringLiteral(" ") + mag.mid(1));
         for (const QString &f : forms) { intParseAll(f); stat("int_lexical_decorated"); }
     }
+    section("int-odd");
     // fixed oddities
     const char *odd[] = { "", " ", "  ", "+", "-", "\xe2\x88\x92", "+-1", "-+1", "--1", "++1", "- 1", "+ 1", "0", "-0", "+0", "\xe2\x88\x92" "0", "00", "-00", "0x", "0x10", "0X10", "010",
                           "1e2", "1E2", "1.0", ".5", "1,000", "1,00", "1_000", "1'000", "\xd9\xa1\xd9\xa2", "\xef\xbc\x91", "\xf0\x9d\x9f\x8f", "\xf0\x9f\x98\x80", "1\xf0\x9f\x98\x80",
                           "one", "NaN", "inf", "true", "1 2", "1\t2", "12a", "a12", "%", ";", "1%", "1;", "٣" };
     for (const char *o : odd) { intParseAll(U(o)); stat("int_lexical_odd"); }
+    section("int-short-exhaustive");
     // exhaustive short strings over a small adversarial alphabet
     std::vector<QString> alpha = { "0", "1", "9", "+", "-", " ", "\t", ",", ".", "e", "x", U("\xe2\x88\x92"), U("\xc2\xa0") };
     size_t n = alpha.size();
@@ -181,6 +198,7 @@ static void boolCase(const QString &s) {
     stat(r ? "bool_accepted" : "bool_rejected");
 }
 static void bools(Rng &rng) {
+    section("bool");
     for (bool b : { false, true }) {
         QString s = serializeBoolean(b);
         corr(std::string("scalar-boolstr ") + (b ? "1" : "0"), hexQ(s));
@@ -211,6 +229,7 @@ static void b64dec(const QString &s) {
 static void base64(Rng &rng, bool thorough) {
     const QString std64 = QStringLiteral("ABCDEFGHIJKLMNOPQRSTUVWXYZabcdefghijklmnopqrstuvwxyz0123456789+/");
     const QString junk = QStringLiteral(" \t\r\n=-_*!.,:@[`{") + U("\xc3\xa9\xe2\x82\xac\xf0\x9f\x98\x80");
+    section("b64-roundtrip-and-variants");
     int reps = thorough ? 40 : 6;
     for (int len = 0; len <= 40; len++) {
         for (int rep = 0; rep < reps; rep++) {
@@ -246,9 +265,11 @@ static void base64(Rng &rng, bool thorough) {
             stat("b64_decode_variants", 5);
         }
     }
+    section("b64-fixed");
     const char *fixed[] = { "", "=", "==", "====", "A", "AA", "AAA", "AAAA", "A===", "AA==", "AA=", "AA==AA==", "QQ==", "QR==", "QUI=", "QUJ=", "QUJD", "QU JD", "QUJD\n", " QUJD",
                             "QU-D", "QU_D", "QU+D", "QU/D", "QU*D", "Q=Q=", "QQ=Q", "QUJD=", "QUJD==", "\xc3\xa9", "QUJDQ", "////", "++++", "/w==", "/x==", "//8=", "//9=" };
     for (const char *f : fixed) b64dec(U(f));
+    section("b64-random");
     for (int i = 0; i < (thorough ? 3000 : 400); i++) {
         QString s; int len = int(rng.below(24));
         for (int k = 0; k < len; k++) {
@@ -341,8 +362,10 @@ static QString randOffset(Rng &rng) {
 
 static void dateTimes(Rng &rng, bool thorough) {
     // ---- the library's own output form: valid values over years 1..9999, with and without milliseconds
+    section("dt-own-form");
     int n = thorough ? 30000 : 3000;
     for (int i = 0; i < n; i++) dtRoundtrip(randCivil(rng));
+    section("dt-boundary-days");
     // boundary days
     for (int y : { 1, 4, 100, 400, 1582, 1600, 1900, 1970, 1999, 2000, 2020, 2021, 2024, 2100, 2400, 9996, 9999 }) {
         for (int mo = 1; mo <= 12; mo++) {
@@ -362,8 +385,10 @@ static void dateTimes(Rng &rng, bool thorough) {
             dtParse(dateStr(c), "boundary");
         }
     }
+    section("dt-every-msec");
     // every millisecond value
     for (int ms = 0; ms < 1000; ms++) dtRoundtrip({ 2023, 6, 15, 10, 20, 30, ms });
+    section("dt-outside-lexical-range");
     // outside the four-digit lexical range, or not a time of day: printed as the empty string
     for (int y : { 0, -1, -2, -400, 10000, 10001, 12345, 99999 }) {
         dtPrint({ y, 1, 1, 0, 0, 0, 0 }); dtPrint({ y, 12, 31, 23, 59, 59, 999 }); dtPrint({ y, 2, 29, 1, 1, 1, 1 });
@@ -374,6 +399,7 @@ static void dateTimes(Rng &rng, bool thorough) {
     }
 
     // ---- other lexical forms Qt::ISODate accepts or refuses
+    section("dt-lexical-forms");
     n = thorough ? 20000 : 2500;
     for (int i = 0; i < n; i++) {
         Civil c = randCivil(rng);
@@ -398,6 +424,7 @@ static void dateTimes(Rng &rng, bool thorough) {
         default: dtParse(d + sep + t + frac + "Z", "fraction"); break;
         }
     }
+    section("dt-offset-boundary");
     // offsets that cross a day, month, year and the year 1 / 9999 limits
     for (const char *o : { "+00:00", "-00:00", "+00:01", "-00:01", "+23:59", "-23:59", "+14:00", "-12:00", "+24:00", "+01:60", "+1", "-1", "+0100", "+01", "+", "-",
                            "+\xe2\x88\x92" "99:", "+\xe2\x88\x92" "999:", "+\xe2\x88\x92" "24:", "-\xe2\x88\x92" "99:", "+ 5", "+5 :00", "+05: 0", "++1", "+1+", "+1:-1", "+01:00Z", "-01:00+02:00" }) {
@@ -407,6 +434,7 @@ static void dateTimes(Rng &rng, bool thorough) {
             dtParse(U(dt) + U(o), "offset_boundary");
         }
     }
+    section("dt-second-fraction");
     // fractional seconds: every fraction of 1..4 digits (Qt rounds the 4th digit in double arithmetic), 5+ sampled
     for (int digits = 1; digits <= 4; digits++) {
         int lim = 1; for (int k = 0; k < digits; k++) lim *= 10;
@@ -415,6 +443,7 @@ static void dateTimes(Rng &rng, bool thorough) {
             dtParse(QStringLiteral("2020-01-02T03:04:05.") + QStringLiteral("%1").arg(v, digits, 10, QLatin1Char('0')) + "Z", "frac_exhaustive");
         }
     }
+    section("dt-minute-fraction");
     // HH:mm.fffff (fraction of a minute, float arithmetic in Qt)
     for (int digits = 1; digits <= 5; digits++) {
         int lim = 1; for (int k = 0; k < digits; k++) lim *= 10;
@@ -427,6 +456,7 @@ static void dateTimes(Rng &rng, bool thorough) {
         for (const char *z : { "Z", "", "+01:00" })
             dtParse(QStringLiteral("2020-01-02T23:59.") + U(f) + U(z), "minute_fraction_odd");
 
+    section("dt-field-fuzz");
     // ---- field fuzz: every 1- and 2-character string over an adversarial alphabet in each field
     std::vector<QString> alpha = { "0", "1", "2", "5", "6", "9", " ", "+", "-", ",", ".", ":", "e", "Z", "T", U("\xe2\x88\x92"), U("\xc2\xa0"), U("\xd9\xa3"), U("\xf0\x9f\x98\x80") };
     std::vector<QString> two;
@@ -454,6 +484,7 @@ static void dateTimes(Rng &rng, bool thorough) {
         dtParse("2020-01-02T03:04" + f, "field_after_minutes");
         dtParse("2020-01-02" + f, "field_after_date");
     }
+    section("dt-mutated");
     // ---- mutation fuzz of valid strings and random strings over the date-time alphabet
     const QString pool = QStringLiteral("0123456789-:TZ+., tz/_x") + U("\xe2\x88\x92\xe2\x80\x93\xe3\x80\x81\xc2\xa0");
     n = thorough ? 60000 : 6000;
@@ -474,11 +505,13 @@ static void dateTimes(Rng &rng, bool thorough) {
         }
         dtParse(s, "mutated");
     }
+    section("dt-random");
     for (int i = 0; i < n / 3; i++) {
         QString s; int len = int(rng.below(28));
         for (int k = 0; k < len; k++) s += pool[int(rng.below(uint32_t(pool.size())))];
         dtParse(s, "random");
     }
+    section("dt-fixed");
     const char *fixed[] = { "", "garbage", "2020", "2020-01", "2020-01-02", "2020-01-02T", "2020-01-02T0", "2020-01-02T00", "2020-01-02T00:", "2020-01-02T00:0", "2020-01-02T00:00",
                             "2020-01-02T00:00:", "2020-01-02T00:00:0", "2020-01-02T00:00:00", "2020-01-021", "2020-01-02Z", "2020-01-02 ", "20200102T030405Z", " 2020-01-02T03:04:05Z",
                             "2020-01-02T03:04:05Z ", "2020-01-02T03:04:05 Z", "2020-01-02T03:04:05ZZ", "2020-01-02T03:04:05UTC", "0000-01-01T00:00:00Z", "10000-01-01T00:00:00Z",
@@ -491,6 +524,7 @@ static void dateTimes(Rng &rng, bool thorough) {
 
 // ------------------------------------------------------------------------------------------- character classes
 static void charClasses() {
+    section("char-classes");
     for (uint c = 0; c < 0x10000; c++) {
         if (c >= 0xD800 && c < 0xE000) continue;
         QChar q(static_cast<ushort>(c));
@@ -502,6 +536,7 @@ static void charClasses() {
 
 // ------------------------------------------------------------------------------------------- time zone offsets
 static void tzo(Rng &rng, bool thorough) {
+    section("tzo");
     auto parse = [](const QString &s) { corr("scalar-tzoparse " + hexQ(s), std::to_string(QXmppUtils::timezoneOffsetFromString(s))); stat("tzo_parse"); };
     std::vector<int> vs = { 0, 60, -60, 3600, -3600, 86340, -86340, 86400, -86400, 86399, 1, -1, 59, 61, 90000, -90000, 19800, -34200, 50400 };
     for (int i = 0; i < (thorough ? 4000 : 400); i++) { int v = int(rng.below(200000)) - 100000; vs.push_back(v); vs.push_back(v / 60 * 60); }
@@ -553,6 +588,7 @@ template<size_t N> static void enumTable(Rng &rng, const std::vector<QString> &p
     look(names[0] + " "); look(names[0].toUpper()); look(QString());
 }
 static void enums(Rng &rng, bool thorough) {
+    section("enum");
     std::vector<QString> pool = { "a", "b", "c", "chat", "groupchat", "normal", "error", "headline", "get", "set", "result", "", "A", "Chat", "both", "from", "to", "none", "remove", U("\xc3\xa9"), "a ", " a" };
     for (int i = 0; i < (thorough ? 2000 : 200); i++) {
         enumTable<1>(rng, pool); enumTable<2>(rng, pool); enumTable<3>(rng, pool); enumTable<4>(rng, pool); enumTable<6>(rng, pool);
